@@ -360,14 +360,15 @@ def _gen_chart(rng, kind, exact, big=False):
                 ov = Fr(base * k) if base in (133.5, 87.25, 177.0) else Fr(base * k / rng.choice([1, 1, 4, 5]))
         else:
             ov = Fr(float(rng.choice([rng.randint(3000, 40000) / 100, rng.uniform(20, 500)])))
+    fj = lambda x: F.frac_json(Fr(float(x)))      # every value is exactly a binary64 number
     return {
         "kind": kind, "game": game, "exact": exact,
-        "bpms": [[F.frac_json(o), F.frac_json(b)] for o, b in bpms],
-        "svs": None if svs is None else [[F.frac_json(o), F.frac_json(x)] for o, x in svs],
-        "hits": [F.frac_json(o) for o in hits],
-        "holds": [[F.frac_json(o), F.frac_json(l)] for o, l in holds],
-        "extra": [F.frac_json(o) for o in extra],
-        "ov": None if ov is None else F.frac_json(ov),
+        "bpms": [[fj(o), fj(b)] for o, b in bpms],
+        "svs": None if svs is None else [[fj(o), fj(x)] for o, x in svs],
+        "hits": [fj(o) for o in hits],
+        "holds": [[fj(o), fj(l)] for o, l in holds],
+        "extra": [fj(o) for o in extra],
+        "ov": None if ov is None else fj(ov),
         "ints": rng.random() < 0.3,
         "labels": rng.choice(["default", "default", "default", "perm", "dup"]),
     }
